@@ -15,13 +15,16 @@ open RSSched Schedule Network Spec C10F C15Opt C10Cyc
 structure InvAll (nw : Network) (s : Schedule) : Prop where
   obj : C04O.InvO nw s
   types : C10Ty.TypeInv nw s
+  formLimits : C02.FormLimits nw s.formations
 
 theorem stepInv0_all {nw : Network} (hn : NetHyp nw) (hovf : C10Lim.OvfNode nw) : C11A.StepInv0 nw (InvAll nw) where
   step := fun s op r hinv hargs h =>
     ⟨(C04O.stepInv0_obj hn hovf).step s op r hinv.obj hargs h,
-     C10Ty.C10_types_step nw hn s op r hinv.obj.base.base.base.all.fu.invF.inv hinv.types hargs h⟩
+     C10Ty.C10_types_step nw hn s op r hinv.obj.base.base.base.all.fu.invF.inv hinv.types hargs h,
+     C02.C02_limits_step nw s op r hinv.formLimits h⟩
   fresh := fun s p pt hinv hpt => (C04O.stepInv0_obj hn hovf).fresh s p pt hinv.obj hpt
-  empty := ⟨(C04O.stepInv0_obj hn hovf).empty, by intro v t vt ht; simp [Schedule.empty, assocGet?_nil] at ht⟩
+  empty := ⟨(C04O.stepInv0_obj hn hovf).empty, (by intro v t vt ht; simp [Schedule.empty, assocGet?_nil] at ht),
+    C02.empty_limits nw⟩
 
 theorem C10_all_reachable (nw : Network) (hn : NetHyp nw) (hovf : C10Lim.OvfNode nw) :
     ∀ (ops : List SOp) (s s' : Schedule), InvAll nw s → (∀ op ∈ ops, ArgsOKF op) → C02.runOps nw s ops = some s' →
@@ -57,7 +60,7 @@ theorem pipeline_all (nw : Network) (hn : NetHyp nw) (hovf : C10Lim.OvfNode nw) 
   refine C11A.solve_inv0 (stepInv0_all hn hovf) o (fun s hs => ?_) tr h
   rw [ho]
   refine ⟨⟨⟨(C10Lim.stepInv_limits hn hovf).setT s _ ?_ hs.obj.base.base, optimise_cyc p fuel hs.obj.base.cycles⟩,
-    ⟨hs.obj.tours.listing, hs.obj.tours.dummies, hs.obj.tours.tours⟩⟩, hs.types⟩
+    ⟨hs.obj.tours.listing, hs.obj.tours.dummies, hs.obj.tours.tours⟩⟩, hs.types, hs.formLimits⟩
   rw [optimise_keys]
   exact hs.obj.base.base.base.all.viol.1
 
